@@ -21,6 +21,7 @@ class FunctionResult:
         self.secs = 0.0
         self.solver_secs = 0.0
         self.source_hash = ''
+        self.bounded = None
 
     @property
     def n_obligations(self):
@@ -41,7 +42,7 @@ class FunctionResult:
             'failed': [dict(o) for o in self.failed()][:5],
             'unknown': [dict(o) for o in self.unknown()][:5],
             'secs': round(self.secs, 3), 'solver_secs': round(self.solver_secs, 3),
-            'source_hash': self.source_hash,
+            'source_hash': self.source_hash, 'bounded': self.bounded,
         }
 
 
@@ -195,14 +196,31 @@ def verify_lemma(world, name, timeout_ms=20000, max_paths=2000):
         from .world import kind_of_annotation
         kinds = [kind_of_annotation(a.annotation) for a in fn.args.args]
         pn = [a.arg for a in fn.args.args]
+        # @bounded(n): sequence parameters are enumerated over all lengths 0..n (a bounded stand-in
+        # for lemmas the sequence solver cannot decide; reported as bounded, not as proved)
+        bound = None
+        for d in fn.decorator_list:
+            if isinstance(d, ast.Call) and getattr(d.func, 'id', None) == 'bounded':
+                bound = ast.literal_eval(d.args[0])
+        seq_params = [i for i, k in enumerate(kinds) if isinstance(k, tuple) and k[0] == 'seq']
+        import itertools
+        combos = [None]
+        if bound is not None and seq_params:
+            combos = list(itertools.product(range(bound + 1), repeat=len(seq_params)))
+            res.bounded = 'sequence lengths <= %d' % bound
+        state = {'combo': None}
 
         def runner(run):
             run.spec_mode += 1
             run.total_access += 1
             run.lemma_mode = name
             env = Env(mi, None, None)
-            for p, k in zip(pn, kinds):
-                v = run.fresh(k, p)
+            for i, (p, k) in enumerate(zip(pn, kinds)):
+                if state['combo'] is not None and i in seq_params:
+                    ln = state['combo'][seq_params.index(i)]
+                    v = ZV(run.z(ListV([run.fresh(k[1], '%s_%d' % (p, j)) for j in range(ln)]), k), k)
+                else:
+                    v = run.fresh(k, p)
                 env.vars[p] = v
                 run.inputs[p] = v
             run.lemma_args = [env.vars[p] for p in pn]
@@ -212,7 +230,13 @@ def verify_lemma(world, name, timeout_ms=20000, max_paths=2000):
                 pass
             return ('return', None)
 
-        for run, out in enumerate_paths(world, runner, timeout_ms=timeout_ms, max_paths=max_paths):
+        def all_runs():
+            for combo in combos:
+                state['combo'] = combo
+                for run, out in enumerate_paths(world, runner, timeout_ms=timeout_ms, max_paths=max_paths):
+                    yield run, out
+
+        for run, out in all_runs():
             res.paths += 1
             res.solver_secs += run.solver_secs
             if out[0] == 'ok':
@@ -220,7 +244,8 @@ def verify_lemma(world, name, timeout_ms=20000, max_paths=2000):
             elif out[0] == 'raise':
                 raise OutOfReach('lemma %s raises %s' % (name, out[1]))
             for ob in run.obligations:
-                res.obligations.append({'label': 'lemma:%s:%s' % (name, ob.label), 'kind': ob.kind,
+                res.obligations.append({'label': 'lemma:%s:%s' % (name, ob.label),
+                                        'kind': 'bounded' if bound is not None else ob.kind,
                                         'status': ob.status, 'model': ob.model, 'detail': ob.detail,
                                         'secs': round(ob.secs, 4),
                                         'path': ''.join('T' if d else 'F' for d in (ob.trace or [])),
